@@ -1604,6 +1604,35 @@ static std::vector<std::vector<Buf>> abortBaseHistories(int cls, bool thorough)
     return out;
 }
 
+// very long buffer: n well-formed unsegmented messages (generic empty ones or CAN) behind one frame header
+static void judgeLongBuffer(W& w, size_t n, bool can)
+{
+    ref::FrameHdr fh;
+    fh.device = 0x21; fh.stream = 2; fh.msgType = ref::MT_DATA; fh.seq = 1;
+    ref::CanF cf;
+    cf.idword = 0x155; cf.dataLen = 2; cf.dlc = 2; cf.data = patt(2, 1);
+    ref::Msg m = can ? ref::mkMsg(ref::PT_CAN, ref::canPayload(cf), 0, 7, 8) : ref::mkMsg(0xFE, Bytes{}, 0, 7, 8);
+    Bytes one = ref::buildFrame(fh, {m});
+    Bytes f(one.begin(), one.begin() + 8);
+    f.reserve(8 + n * (one.size() - 8));
+    for (size_t i = 0; i < n; ++i)
+        f.insert(f.end(), one.begin() + 8, one.end());
+    Decoder d;
+    Buf b;
+    b.base = f;
+    Decoded r = decodeExact(d, b);
+    w.add(mc::C_TRANS, 1);
+    if (r.inputChanged)
+        w.fail("safety:decoder-wrote-to-input-buffer", "the long buffer was modified by decode()");
+    if (r.packets.size() != n)
+        w.fail("safety:long-buffer-packet-count", fmt("%zu well-formed messages in one buffer: %zu packets returned", n, r.packets.size()));
+    uint64_t h = r.packets.size();
+    for (size_t i = 0; i < r.packets.size(); i += std::max<size_t>(1, r.packets.size() / 64))
+        if (r.packets[i])
+            h = mc::mix(h, obs::digest(obs::observe(*r.packets[i])));
+    w.outcome(h);
+}
+
 static void abortedRound(mc::Run& run, bool thorough)
 {
     run.round("histories with a decode call aborted at its n-th allocation (every n, every buffer) and repeated: reassembly F(a) [I(b)] L(c) [U U] over sizes {0,1,17,1000}, and the typed payloads of the 7 classes unsegmented / split over two segments",
@@ -1697,7 +1726,9 @@ int main(int argc, char** argv)
             std::vector<Buf> h;
             for (auto& s : mc::split(kv["h"], ','))
                 h.push_back(Buf::parse(s));
-            if (kv.count("abort"))
+            if (kv.count("long"))
+                judgeLongBuffer(w, strtoull(kv["long"].c_str(), nullptr, 10), atoi(kv["can"].c_str()) != 0);
+            else if (kv.count("abort"))
                 judgeC02(w, atoi(kv["pre"].c_str()), h, atoi(kv["abort"].c_str()), atoi(kv["abort"].c_str() + kv["abort"].find(':') + 1));
             else
                 judgeC02(w, atoi(kv["pre"].c_str()), h);
@@ -1842,30 +1873,7 @@ int main(int argc, char** argv)
                 auto desc = [&] { return fmt("long=%zu;can=%d", n, (int) can); };
                 if (!w.begin_case(desc))
                     return;
-                ref::FrameHdr fh;
-                fh.device = 0x21; fh.stream = 2; fh.msgType = ref::MT_DATA; fh.seq = 1;
-                ref::CanF cf;
-                cf.idword = 0x155; cf.dataLen = 2; cf.dlc = 2; cf.data = patt(2, 1);
-                ref::Msg m = can ? ref::mkMsg(ref::PT_CAN, ref::canPayload(cf), 0, 7, 8) : ref::mkMsg(0xFE, Bytes{}, 0, 7, 8);
-                Bytes one = ref::buildFrame(fh, {m});
-                Bytes f(one.begin(), one.begin() + 8);
-                f.reserve(8 + n * (one.size() - 8));
-                for (size_t i = 0; i < n; ++i)
-                    f.insert(f.end(), one.begin() + 8, one.end());
-                Decoder d;
-                Buf b;
-                b.base = f;
-                Decoded r = decodeExact(d, b);
-                w.add(mc::C_TRANS, 1);
-                if (r.inputChanged)
-                    w.fail("safety:decoder-wrote-to-input-buffer", "the long buffer was modified by decode()");
-                if (r.packets.size() != n)
-                    w.fail("safety:long-buffer-packet-count", fmt("%zu well-formed messages in one buffer: %zu packets returned", n, r.packets.size()));
-                uint64_t h = r.packets.size();
-                for (size_t i = 0; i < r.packets.size(); i += std::max<size_t>(1, r.packets.size() / 64))
-                    if (r.packets[i])
-                        h = mc::mix(h, obs::digest(obs::observe(*r.packets[i])));
-                w.outcome(h);
+                judgeLongBuffer(w, n, can);
                 w.add(mc::C_TRACES, 1);
                 w.add(mc::C_STATES, 1);
             });
